@@ -1562,9 +1562,22 @@ class Cell(Bucket):
         """If app is placed on non-existent server, set server to None.
         """
         for app in queue:
-            if app.server and app.server not in servers:
+            if not app.server:
+                continue
+
+            if app.server not in servers:
                 app.server = None
                 app.evicted = True
+                app.release_identity()
+                continue
+
+            # App was moved to allocation in other partition, or required
+            # traits changed - the server no longer qualifies.
+            server = servers[app.server]
+            if ((app.allocation is not None and
+                 app.allocation.label not in server.labels) or
+                    (app.traits != 0 and not server.traits.has(app.traits))):
+                server.remove(app.name)
                 app.release_identity()
 
     def _record_rank_and_util(self, queue):
